@@ -289,10 +289,20 @@ def run(ctx, rep):
                     via = var
         if via is not None:
             users = [r for r in rets if via in names_in_expr(r.value)]
-            if users and all(isinstance(r.value, ast.Name) and r.value.id == via for r in users):
+
+            def plain_use(r):
+                v = r.value
+                if isinstance(v, ast.Name) and v.id == via:
+                    return True
+                if isinstance(v, ast.Call) and len(v.args) == 1 and isinstance(v.args[0], ast.Name) and v.args[0].id == via:
+                    for cs in T.callsites(f):
+                        if cs.node is v and cs.targets and all(value_preserving(t) for t in cs.targets):
+                            return True
+                return False
+            if users and all(plain_use(r) for r in users):
                 rep.ok("C05.2", cons, "override.get(const.name, const.value) returned as is", f.loc())
             elif users:
-                r = [r for r in users if not (isinstance(r.value, ast.Name) and r.value.id == via)][0]
+                r = [r for r in users if not plain_use(r)][0]
                 rep.violation("C05.2", cons, f"the value taken from the override dictionary is transformed before it is substituted (`{ast.unparse(r.value)}`): the circuit is not evaluated with the constant bound to its overriding value (e.g. a float override of an int-declared constant is truncated)", f"{f.path}:{r.lineno}")
             else:
                 rep.undecided("C05.2", cons, "override lookup result is not returned", f.loc())
@@ -369,13 +379,34 @@ def run(ctx, rep):
             rep.exempt("C05.10", cons, "declared let values are stored as given")
             continue
         used = set()
+        fl10 = FuncFlow(ix, T, f)
         for cs in T.callsites(f):
-            if isinstance(cs.node, ast.Call) and any(isinstance(m, ast.Attribute) and m.attr == over_attr for a in cs.node.args for m in ast.walk(a)):
-                used |= {t.qualname for t in cs.targets}
+            if not isinstance(cs.node, ast.Call):
+                continue
+            for a in cs.node.args:
+                ids_, roots_ = fl10.depends(a)
+                if any(isinstance(m, ast.Attribute) and m.attr == over_attr for e in [a] + list(roots_) for m in ast.walk(e)):
+                    used |= {t.qualname for t in cs.targets}
         if used & norm:
             rep.ok("C05.10", cons, f"the override passes through {sorted(short_(q) for q in used & norm)}", f.loc())
         else:
             rep.violation("C05.10", cons, f"declared values are normalised by {sorted(short_(q) for q in norm)} (let n 4.0 is the integer 4) but an overriding value is substituted raw: `override n=4.0` for `register r[n]` or an index is rejected ('non-integer size 4.0') although the same program with `let n 4.0` is legal", f.loc(), witness="let n 4\nregister r[n]   with override {'n': 4.0}")
+
+    # ------------------------------------------------------------ C05.11
+    rep.rule("C05.11", "an overriding value that cannot be written in Jaqal (infinity, NaN) is rejected: the substituted circuit must have a text form", floor=1)
+    for f in resolvers:
+        cons = construct_of(f, "override-finite")
+        cfg_ = CFG(f.body)
+        okf = False
+        for st in iter_stmts(f.body):
+            if isinstance(st, ast.If) and any(isinstance(x, ast.Raise) for x in st.body):
+                txt = ast.unparse(st.test)
+                if "isfinite" in txt or "isinf" in txt or "isnan" in txt or "inf" in txt:
+                    okf = True
+        if okf:
+            rep.ok("C05.11", cons, "a raising guard tests the overriding value for finiteness", f.loc())
+        else:
+            rep.violation("C05.11", cons, "`fill_in_let(c, {'a': float('inf')})` yields a circuit containing `Rz r[0] inf`, whose generated text the parser rejects (and with NaN and a let named nan it silently re-parses to another circuit)", f.loc(), witness="fill_in_let(circuit, {'a': float('inf')})")
 
     # ------------------------------------------------------------ C05.4
     rep.rule("C05.4", "IR constructor arguments that must be objects never receive an S-expression from a visit", floor=2)
